@@ -837,8 +837,9 @@ def find_in_ast(search, node):
                 return child_node
 
             elif isinstance(child_node, FunctionDef):
-                if len(current_search):
-                    query = current_search.pop(0)
+                if child_node.name != query or not len(current_search):
+                    continue  # only the function named by this segment owns the next segment
+                query = current_search.pop(0)
                 _cursor = next(
                     filter(
                         lambda idx_arg: idx_arg[1].arg == query,
@@ -851,9 +852,24 @@ def find_in_ast(search, node):
                         setattr(
                             _cursor[1], "default", child_node.args.defaults[_cursor[0]]
                         )
-                    cursor = _cursor[1]
-                    if len(current_search) == 0:
-                        return cursor
+                else:
+                    _cursor = next(
+                        filter(
+                            lambda idx_arg: idx_arg[1].arg == query,
+                            enumerate(child_node.args.kwonlyargs),
+                        ),
+                        None,
+                    )
+                    if (
+                        _cursor is not None
+                        and child_node.args.kw_defaults[_cursor[0]] is not None
+                    ):
+                        setattr(
+                            _cursor[1],
+                            "default",
+                            child_node.args.kw_defaults[_cursor[0]],
+                        )
+                return _cursor[1] if _cursor and len(current_search) == 0 else None
             elif (
                 isinstance(child_node, AnnAssign)
                 and isinstance(child_node.target, Name)
